@@ -251,9 +251,38 @@ impl Property for C10Prop {
             })
             .map_err(|c| c.sig())
         };
-        let same = |x: &Answers, y: &Answers| -> Result<Option<String>, String> {
+        // the parameter types a union of functions answers with are a meet: C10 asks of it only that it
+        // lie below the corresponding parameter of every member (with absorbed members the meet may be
+        // another lower bound than the one the unabsorbed union gives), so they are judged by that
+        let all_members: Vec<Type> = vec![a.clone(), b.clone(), c.clone()];
+        let two_members: Vec<Type> = vec![a.clone(), b.clone()];
+        let meet_ok = |x: &Answers, members: &[Type]| -> Result<Option<String>, String> {
             run::guarded(|| {
                 for (name, ax) in x {
+                    let Some(k) = name.strip_prefix("parameter ").and_then(|k| k.parse::<usize>().ok()) else { continue };
+                    let Some(p) = ax else { continue };
+                    for m in members {
+                        if let Some(ps) = m.params()
+                            && let Some(mp) = ps.get(k)
+                            && !p.matches(mp)
+                        {
+                            return Some(format!("parameter {k}: {} does not lie below the parameter {} of the member {}", Ty::from_real(p).print(), Ty::from_real(mp).print(), Ty::from_real(m).print()));
+                        }
+                    }
+                }
+                None
+            })
+            .map_err(|c| c.sig())
+        };
+        let same_for = |x: &Answers, y: &Answers, members: &[Type]| -> Result<Option<String>, String> {
+            if let Some(bad) = meet_ok(x, members)? {
+                return Ok(Some(bad));
+            }
+            run::guarded(|| {
+                for (name, ax) in x {
+                    if name.starts_with("parameter ") || *name == "number of parameters" {
+                        continue;
+                    }
                     let ay = y.iter().find(|(n, _)| n == name).and_then(|(_, a)| a.clone());
                     let agree = match (ax, &ay) {
                         (None, None) => true,
@@ -265,7 +294,7 @@ impl Property for C10Prop {
                         return Some(format!("{name}: {} against {}", show(ax), show(&ay)));
                     }
                 }
-                (x.len() != y.len()).then(|| "a different number of parameters".to_string())
+                None
             })
             .map_err(|c| c.sig())
         };
@@ -275,7 +304,7 @@ impl Property for C10Prop {
         let _ = tri!(questions(&first), "type queries");
         let grown = tri!(run::guarded(|| first | c.clone()).map_err(|c| c.sig()), "type union");
         let got = tri!(questions(&grown), "type queries");
-        if let Some(diff) = tri!(same(&got, &want), "matches") {
+        if let Some(diff) = tri!(same_for(&got, &want, &all_members), "matches") {
             return fail("C10:type-with-history", format!("({ta})|({tb}) was asked about and then joined with {tc}: it differs from the union built in one go in {diff}"));
         }
         let mut second = tri!(union_real(&[b.clone(), a.clone()]), "type union");
@@ -283,12 +312,12 @@ impl Property for C10Prop {
         let keep = second.clone();
         tri!(run::guarded(|| second |= c.clone()).map_err(|c| c.sig()), "type union");
         let got = tri!(questions(&second), "type queries");
-        if let Some(diff) = tri!(same(&got, &want), "matches") {
+        if let Some(diff) = tri!(same_for(&got, &want, &all_members), "matches") {
             return fail("C10:type-with-history", format!("({tb})|({ta}) was asked about and then widened by |= {tc}: it differs from the union built in one go in {diff}"));
         }
         let kept = tri!(questions(&keep), "type queries");
         let again = tri!(questions(&tri!(union_real(&[a.clone(), b.clone()]), "type union")), "type queries");
-        if let Some(diff) = tri!(same(&kept, &again), "matches") {
+        if let Some(diff) = tri!(same_for(&kept, &again, &two_members), "matches") {
             return fail("C10:type-with-history", format!("a copy of ({tb})|({ta}) taken before the original was widened differs from that union in {diff}"));
         }
         Verdict::Pass
